@@ -543,26 +543,13 @@ def r15d(R):
 def r15e(R):
     A = R.A
     rc = A.func(MACHINE, 'Machine._as_raw_color')
-    cfg = A.cfg(rc)
-    per_mode = {}
-    for n in cfg.nodes:
-        if n.kind == 'cond' and isinstance(n.ast, ast.Compare):
-            v = A.try_fold(n.ast.comparators[0], rc)
-            if isinstance(v, EnumVal):
-                tgt = [m for m, lab in n.succs if lab is True]
-                if tgt and tgt[0].is_return:
-                    e = tgt[0].ret_expr
-                    per_mode[v.member] = (A.callee_names(rc, e)[0].split('.')[-1]
-                                          if isinstance(e, ast.Call) and
-                                          A.callee_names(rc, e) else 'identity')
-    last = [r for r in cfg.return_nodes() if isinstance(r.ret_expr, ast.Call)
-            and A.callee_names(rc, r.ret_expr)]
-    for r in last:
-        nm = A.callee_names(rc, r.ret_expr)[0].split('.')[-1]
-        if nm not in per_mode.values():
-            per_mode['LOGICAL'] = nm
+    per_mode_fn = {}
+    for member, (calls, _n) in per_mode(A, rc).items():
+        conv = sorted(c.split('.')[-1] for c in calls if c.startswith('units.'))
+        per_mode_fn[member] = conv[0] if len(conv) == 1 else (
+            'identity' if not conv else '+'.join(conv))
     want = {'RAW': 'identity', 'RGB': 'rgb_to_raw', 'LOGICAL': 'logical_to_raw'}
-    R.check(rc, '_as_raw_color: %s' % per_mode, per_mode == want,
+    R.check(rc, '_as_raw_color: %s' % per_mode_fn, per_mode_fn == want,
             'a plain set converts the colour with the wrong function for some '
             'unit mode')
     rm = A.func(MACHINE, 'Machine._as_raw_matrix')
@@ -681,3 +668,68 @@ def r15f(R):
                         % ('/'.join(k.strip('<>') for k in kinds),
                            ' -> '.join(chain or [])),
                         path=chain, line=call.lineno)
+
+
+# ---------------------------------------------------------------- R14.d
+def per_mode(A, f, mode_expr='self._reg.unit_mode'):
+    """{UnitMode member: (callee names reached, nodes reached)} for f with
+    the mode register bound to each member in turn."""
+    um = A.cls(UNITS, 'UnitMode')
+    out = {}
+    for member in um.enum_members():
+        nodes = A.nodes_under(f, {mode_expr: EnumVal('UnitMode', member)})
+        calls = set()
+        for n in nodes:
+            for c in n.calls():
+                calls |= set(A.callee_names(f, c))
+        out[member] = (calls, nodes)
+    return out
+
+
+@rule('R14.d', ('C14', 'C07', 'C01'), 'each unit mode selects its own '
+      'converter in the VM: seconds/milliseconds, colour in, colour out',
+      floor=10,
+      decides='what a set, a get and a delay mean depends on the unit mode in '
+              'the documented way: raw time is milliseconds and only raw time; '
+              'rgb and logical colours go through their own conversion')
+def r14d(R):
+    A = R.A
+    want = {
+        'Machine._as_raw_time': {'LOGICAL': {'units.time_raw'},
+                                 'RGB': {'units.time_raw'}, 'RAW': set()},
+        'Machine._as_raw_color': {'LOGICAL': {'units.logical_to_raw'},
+                                  'RGB': {'units.rgb_to_raw'}, 'RAW': set()},
+        'Machine._assure_units': {'LOGICAL': {'units.raw_to_logical'},
+                                  'RGB': {'units.raw_to_rgb'}, 'RAW': set()},
+    }
+    for name, table in sorted(want.items()):
+        f = A.func(MACHINE, name)
+        got = per_mode(A, f)
+        for member, (calls, _nodes) in sorted(got.items()):
+            conv = set(c for c in calls if c.startswith('units.')
+                       and c != 'units.convert_fn')
+            R.check(f, '%s in %s mode -> %s' % (
+                name.split('.')[1], member, sorted(conv) or 'unchanged'),
+                conv == table.get(member, set()),
+                'in %s units %s applies %s where %s is due' % (
+                    member.lower(), name.split('.')[1], sorted(conv) or 'nothing',
+                    sorted(table.get(member, set())) or 'nothing'))
+    # the delay handed to the clock: raw time is milliseconds, the other two
+    # modes hold seconds
+    w = A.func(MACHINE, 'Machine._wait')
+    got = per_mode(A, w)
+    for member, (_calls, nodes) in sorted(got.items()):
+        div = [n for n in nodes if n.kind == 'stmt' and (
+            (isinstance(n.ast, ast.AugAssign) and isinstance(n.ast.op, ast.Div)
+             and A.try_fold(n.ast.value, w) == 1000) or
+            (isinstance(n.ast, ast.Assign) and isinstance(n.ast.value, ast.BinOp)
+             and isinstance(n.ast.value.op, ast.Div)
+             and A.try_fold(n.ast.value.right, w) == 1000) or
+            (isinstance(n.ast, ast.Assign) and isinstance(n.ast.value, ast.Call)
+             and 'units.time_logical' in A.callee_names(w, n.ast.value)))]
+        R.check(w, '_wait in %s mode: %s' % (member, 'ms -> s' if div else 'as is'),
+                bool(div) == (member == 'RAW'),
+                'in %s units the time register holds %s but _wait %s by 1000 '
+                'before it pauses: the delay is wrong by a factor of 1000'
+                % (member.lower(), 'milliseconds' if member == 'RAW' else 'seconds',
+                   'divides' if div else 'does not divide'))
